@@ -14,6 +14,7 @@ Lemma f4 : tp_host_pins_root_cas gen_tls_params = true. Proof. reflexivity. Qed.
 Lemma f5 : tp_plugin_requires_client gen_tls_params = true. Proof. reflexivity. Qed.
 Lemma f6 : tp_plugin_pins_client_cas gen_tls_params = true. Proof. reflexivity. Qed.
 Lemma f7 : tp_broker_serves_with_tls gen_tls_params = true. Proof. reflexivity. Qed.
+Lemma f8 : tp_pools_only_pinned gen_tls_params = true. Proof. reflexivity. Qed.
 
 (* every path (main listener over net/rpc or gRPC, plugin-side and host-side brokered listeners; with
    multiplexing the same configurations run over the yamux streams) has a TLS server configuration that
@@ -23,7 +24,7 @@ Theorem C12_every_path_mutual : forall announced p,
             t_client_cas c = match p with
                              | HostBrokered => match announced with Some k => [k] | None => [] end
                              | _ => [host_key] end.
-Proof. exact (every_path_mutual gen_tls_params f1 f2 f3 f5 f6 f7). Qed.
+Proof. exact (every_path_mutual gen_tls_params f1 f2 f3 f5 f6 f7 f8). Qed.
 
 (* a peer that connects in plaintext, presents no certificate, or presents any other certificate is
    refused on every path, whatever certificate the plugin announced (or none): only the legitimate key is served *)
@@ -33,7 +34,7 @@ Theorem C12_only_legit_served : forall announced p x,
   | HostBrokered => exists k, announced = Some k /\ x = TLSCert k
   | _ => x = TLSCert host_key
   end.
-Proof. exact (only_legit_served gen_tls_params f1 f2 f3 f5 f6 f7). Qed.
+Proof. exact (only_legit_served gen_tls_params f1 f2 f3 f5 f6 f7 f8). Qed.
 Print Assumptions C12_only_legit_served.
 
 (* the host talks only to a server holding the certificate announced in the handshake line: an impostor that
@@ -41,7 +42,7 @@ Print Assumptions C12_only_legit_served.
 Theorem C12_host_pins_announced : forall announced p s,
   p <> HostBrokered -> client_accepts (client_cfg gen_tls_params announced p) (Some s) = true ->
   exists k, announced = Some k /\ t_own s = Some k.
-Proof. exact (host_pins_announced gen_tls_params f1 f2 f3 f4). Qed.
+Proof. exact (host_pins_announced gen_tls_params f1 f2 f3 f4 f8). Qed.
 
 Theorem C12_no_plaintext_fallback : forall p, p <> HostBrokered -> client_accepts (client_cfg gen_tls_params None p) None = false.
 Proof. intros p Hp. destruct p; try congruence; reflexivity. Qed.
@@ -52,4 +53,4 @@ Theorem C12_legit_pair_accepted : forall p,
   let legit := match p with HostBrokered => TLSCert plugin_key | _ => TLSCert host_key end in
   server_accepts (server_cfg gen_tls_params announced p) legit = true /\
   client_accepts (client_cfg gen_tls_params announced p) (server_cfg gen_tls_params announced p) = true.
-Proof. exact (legit_pair_accepted gen_tls_params f1 f2 f3 f4 f5 f6 f7). Qed.
+Proof. exact (legit_pair_accepted gen_tls_params f1 f2 f3 f4 f5 f6 f7 f8). Qed.
